@@ -10,6 +10,15 @@ MANIFEST = dict(
          'never called with the wrong number of arguments); name registration (_create_* / '
          '_raise_symbol_already_defined / _check_canonical_name_available) ends in a state or in the spec error for '
          'every list of files (register_no_crash: min(existing.at_version) is never applied to an empty dictionary). '
+         'Also proved, for the last sentence of the property: the format operation that the `except InvalidSpec` handler '
+         'of stone.cli.main holds (copied from the handler by the translator as data: style, template, fields; '
+         'interpreted by Model/CliReport.lean with the partiality of str.format and % explicit) raises nothing and '
+         'yields `path:line: error: message` for EVERY value the three fields of an InvalidSpec can take - path str or '
+         'None, line int or None, any message (cli_answers_spec_error, cli_answer_no_crash; the handler ends with '
+         'sys.exit(1) and prints to stderr: cli_spec_error_status; str.format with {} fields never looks at the kind '
+         'of a value: format_style_kind_blind, with the witness that `%d` of a missing line is a TypeError). Tied to '
+         'the code by fe.format (the interpreter against Python\'s own str.format and % on random templates and '
+         'arguments) and fe.report (the model\'s line against what stone.cli.main printed). '
          'The crash sites the first version of the models excluded (List(T, min_items="a"); a clash that involves an '
          'annotation; a definition named like a built-in type, a route or an annotation type) are repaired in the code; '
          'the former witnesses are kept as regression statements of the new behaviour. Both models are total '
@@ -23,9 +32,15 @@ MANIFEST = dict(
          'converted or checked (field defaults, example values, route attributes, annotation arguments, annotation-type '
          'parameter defaults, type arguments) for every primitive type plain / bounded / nullable / behind an alias '
          '(fe.literals), and a grid of argument shapes (0-3 positional x 0-2 keyword arguments, mixed, duplicated, '
-         'unknown, bare) for every built-in annotation type and four custom ones (fe.annargs) - with the oracle "returns, or raises InvalidSpec with a non-empty str '
-         'message, int|None line and a path among the inputs"; a sample through stone.cli.main checks exit status 1 and '
-         '`path:line: error: message`.',
+         'unknown, bare) for every built-in annotation type and four custom ones (fe.annargs), one generated spec cut '
+         'before every token (with and without a final newline, alone and after whole files), every recursively followed '
+         'construct nested / chained 150 and 3000 times - with the oracle "returns, or raises InvalidSpec with a non-empty str '
+         'message, int|None line and a path among the inputs". The command line (stone.cli.main in-process, throw-away '
+         'backend) is run on representatives of every SHAPE of spec error the fuzzing produced (line present / absent x '
+         'path absent / only file / first / later file x message with %, braces, non-ASCII, backslash, several lines) '
+         'and of every distinct message wording, plus a sample of freshly mutated specs: exit status 1, nothing '
+         'escapes, and stderr holds `path:line: error: message` with the path, line and message of the InvalidSpec that '
+         'specs_to_ir raises for the same files (what stands for an absent path or line is not judged).',
     note='Trusted: Lean kernel, translator, generators. ply (lex / yacc) is not modelled; the parser and the remaining '
          'passes of the IR generator are covered by fuzzing only. A limit of 20 s of processor time per compile '
          '(independent of machine load; a wall-clock alarm ten times as long is the backstop) stands in for termination '
@@ -41,10 +56,15 @@ RULE = ('C03: for any text(s), specs_to_ir returns or raises InvalidSpec(str mes
 
 
 def run(ck):
+    import time
     ck.build_and_audit()
-    fe_fuzz.suite_fuzz(ck, n_models=ck.scale(40, 400), n_mut_per_model=ck.scale(25, 50), short_len=ck.scale(3, 4),
-                       n_random_short=ck.scale(1500, 50000))
-    fe_fuzz.suite_cli(ck, ck.scale(40, 400))
+    t0 = time.time()
+    picked = fe_fuzz.suite_fuzz(ck, n_models=ck.scale(40, 400), n_mut_per_model=ck.scale(25, 50), short_len=ck.scale(3, 4),
+                                n_random_short=ck.scale(1500, 50000))
+    t1 = time.time()
+    fe_fuzz.suite_cli(ck, ck.scale(40, 400), picked)
+    fe_fuzz.suite_format(ck, ck.scale(3000, 30000))
+    ck.stats['fuzz_s'], ck.stats['cli_s'] = round(t1 - t0, 1), round(time.time() - t1, 1)
     fe_rules.suite_params(ck, report='C03')
     fe_rules.suite_literals(ck, report='C03')
     fe_rules.suite_annargs(ck, report='C03')
@@ -62,6 +82,10 @@ def replay(ck, path):
     rec = json.load(open(path))
     case = rec.get('case', rec)
     specs = [tuple(s) for s in case['specs']]
+    if case.get('via') == 'cli':
+        direct, code, _text, _cmp = fe_fuzz.judge_cli(ck, fe_fuzz._Cli(), specs, case.get('origin', 'replay'))
+        print('replay: frontend', {k: direct[k] for k in direct if k != 'err'}, direct.get('err'), '; command line', code)
+        return ck.finish(rule=RULE)
     limit = min(20, case.get('limit_s') or (case.get('verdict') or {}).get('limit_s') or 20)
     v = fe_fuzz.confirm_timeout(specs, fe_fuzz.classify(specs, limit_s=limit))
     print('replay:', v)
